@@ -440,6 +440,14 @@ def stack_nonempty(ctx, fn, t, F):
     return "STK", ok and one, found
 
 
+def _const_named(F, name):
+    hits = [p for p in F.consts if p.split("::")[-1] == name]
+    try:
+        return F.const_int(hits[0]) if len(hits) == 1 else None
+    except Exception:
+        return None
+
+
 def stack_capacity(ctx, fn, t, F):
     found = {}
     cap = None
@@ -448,8 +456,11 @@ def stack_capacity(ctx, fn, t, F):
         if f["name"] == "state":
             m = re.search(r",\s*(\d+)>", f["ty"])
             cap = int(m.group(1)) if m else None
+            m = re.search(r",\s*([A-Za-z_][\w:]*)>", f["ty"])
+            if cap is None and m:            # a named capacity: the value the compiler computed for that constant
+                cap = _const_named(F, m.group(1).split("::")[-1])
     found["capacity"] = cap
-    maxd = F.const_int("search::MAX_DEPTH") if "search::MAX_DEPTH" in F.consts else None
+    maxd = F.const_int("search::MAX_DEPTH") if "search::MAX_DEPTH" in F.consts else _const_named(F, "MAX_DEPTH")
     found["MAX_DEPTH"] = maxd
     # one-way growth: every loop that calls push_history must leave the loop when len() >= guard
     g = mir.callgraph(F)
